@@ -14,6 +14,7 @@ import (
 	"github.com/emitter-io/emitter/internal/provider/contract"
 	"github.com/emitter-io/emitter/internal/provider/storage"
 	"github.com/emitter-io/emitter/internal/security"
+	"github.com/emitter-io/emitter/internal/security/hash"
 	"github.com/emitter-io/emitter/internal/service/link"
 	"github.com/emitter-io/emitter/internal/service/pubsub"
 	"github.com/emitter-io/emitter/internal/verifrt"
@@ -261,6 +262,21 @@ func VerifC02Request(v *verifrt.T) {
 	n := v.Choice(v.Bound("topic")+1, "n")
 	topic := append([]byte(name+"/"), v.Bytes(n, "t")...)
 	orig := append([]byte(nil), topic...)
+	// channel levels are 32-bit murmur hashes: another level name with the hash of "a" is the
+	// same channel to the broker by design (stated outside the claim); such texts are left out
+	{
+		t := topic[len(name)+1:]
+		for len(t) > 0 && t[0] == '/' { // subscribe normalises leading separators away
+			t = t[1:]
+		}
+		end := 0
+		for end < len(t) && t[end] != '/' {
+			end++
+		}
+		if lvl := t[:end]; !(len(lvl) == 1 && lvl[0] == 'a') && len(lvl) > 1 {
+			v.Assume(hash.Of(lvl) != hash.OfString("a"))
+		}
+	}
 	kind := v.Choice(3, "kind")
 	var err error
 	isErr := false
